@@ -1,0 +1,87 @@
+//go:build verif
+// +build verif
+
+package flags
+
+// Thin exported wrappers over unexported functions, compiled only with the
+// `verif` build tag. They let an external correspondence harness call the
+// library's internal pure functions directly. No existing code is touched.
+
+import (
+	"io"
+	"reflect"
+)
+
+// VerifWrapText exposes wrapText.
+func VerifWrapText(s string, l int, prefix string) string { return wrapText(s, l, prefix) }
+
+// VerifLevenshtein exposes levenshtein.
+func VerifLevenshtein(s string, t string) int { return levenshtein(s, t) }
+
+// VerifClosestChoice exposes closestChoice.
+func VerifClosestChoice(cmd string, choices []string) (string, int) {
+	return closestChoice(cmd, choices)
+}
+
+// VerifScanTag exposes multiTag.scan.
+func VerifScanTag(tag string) (map[string][]string, error) {
+	mt := newMultiTag(tag)
+	return mt.scan()
+}
+
+// VerifArgumentIsOption exposes argumentIsOption.
+func VerifArgumentIsOption(arg string) bool { return argumentIsOption(arg) }
+
+// VerifArgumentStartsOption exposes argumentStartsOption.
+func VerifArgumentStartsOption(arg string) bool { return argumentStartsOption(arg) }
+
+// VerifStripOptionPrefix exposes stripOptionPrefix.
+func VerifStripOptionPrefix(optname string) (string, string, bool) {
+	return stripOptionPrefix(optname)
+}
+
+// VerifSplitOption exposes splitOption.
+func VerifSplitOption(prefix string, option string, islong bool) (string, string, *string) {
+	return splitOption(prefix, option, islong)
+}
+
+// VerifConvert exposes convert; target must be a pointer to the destination.
+func VerifConvert(val string, target interface{}, tag string) error {
+	return convert(val, reflect.ValueOf(target).Elem(), newMultiTag(tag))
+}
+
+// VerifConvertToString exposes convertToString.
+func VerifConvertToString(val interface{}, tag string) (string, error) {
+	return convertToString(reflect.ValueOf(val), newMultiTag(tag))
+}
+
+// VerifQuoteIfNeeded exposes quoteIfNeeded.
+func VerifQuoteIfNeeded(s string) string { return quoteIfNeeded(s) }
+
+// VerifUnquoteIfPossible exposes unquoteIfPossible.
+func VerifUnquoteIfPossible(s string) (string, error) { return unquoteIfPossible(s) }
+
+// VerifIniValue mirrors iniValue.
+type VerifIniValue struct {
+	Name       string
+	Value      string
+	Quoted     bool
+	LineNumber uint
+}
+
+// VerifReadIni exposes readIni: the sections by name.
+func VerifReadIni(r io.Reader, filename string) (map[string][]VerifIniValue, error) {
+	in, err := readIni(r, filename)
+	if err != nil {
+		return nil, err
+	}
+	ret := make(map[string][]VerifIniValue)
+	for name, sec := range in.Sections {
+		vals := make([]VerifIniValue, 0, len(sec))
+		for _, v := range sec {
+			vals = append(vals, VerifIniValue{v.Name, v.Value, v.Quoted, v.LineNumber})
+		}
+		ret[name] = vals
+	}
+	return ret, nil
+}
